@@ -23,3 +23,21 @@ def jobs(prop, tier, seed=0):
         j["name"] += "[opt=%d,dict=%d,pages=%s]" % (opt, dic, rows)
         out.append(j)
     return out
+
+
+
+def page_jobs(prop, tier):
+    """real core.read_data_page / read_def (v1) call-site patterns (vf/pyshim/h_page.py)"""
+    t = 200 if tier == "quick" else 800
+    out = []
+    for enc, opt, sm in (("plain", 1, 0), ("dict", 1, 0), ("dict", 1, 1), ("delta", 0, 0), ("bool_rle", 1, 0),
+                         ("dict", 0, 0)):
+        j = ch(prop, "vf/pyshim/h_page.py", "h_page_v1", t, ["core.read_data_page", "core.read_def"],
+               shape=dict(encoding=enc, optional=opt, selfmade=sm),
+               env=dict(VERIF_ENC=enc, VERIF_OPTIONAL=opt, VERIF_SELFMADE=sm))
+        j["name"] += "[%s,opt=%d,selfmade=%d]" % (enc, opt, sm)
+        out.append(j)
+    for h in ("h_levels", "h_list_shape", "h_map_shape"):
+        out.append(ch(prop, "vf/pyshim/h_schema.py", h, t, ["schema.SchemaHelper", "schema._is_list_like",
+                                                           "schema._is_map_like"]))
+    return out
